@@ -53,11 +53,17 @@ Definition spec_send (acs : list conv) (f : string) (a : list (string * list str
         exists w, In w ws /\ carries w n f (fst e) (snd e).
 
 (* ------------------------------------------------ receive *)
-(* local names the maps for name format f give to wire name n *)
+(* local names the maps for name format f give to wire name n (each once) *)
+Fixpoint dedup (l : list string) : list string :=
+  match l with
+  | [] => []
+  | x :: r => if mem x r then dedup r else x :: dedup r
+  end.
+
 Definition known_targets (acs : list conv) (n f : string) : list string :=
-  flat_map (fun m => if String.eqb (nf m) f
-                     then match local_name m n with Some c => [c] | None => [] end
-                     else []) acs.
+  dedup (flat_map (fun m => if String.eqb (nf m) f
+                            then match local_name m n with Some c => [c] | None => [] end
+                            else []) acs).
 
 Definition has_format (acs : list conv) (f : string) : bool :=
   existsb (fun m => String.eqb (nf m) f) acs.
